@@ -456,7 +456,7 @@ func (r *Run) WriteEvidence() error {
 		"unmodelled_or_abstracted": dr,
 		"solver_seconds":           ss,
 		"replays_run":              r.replays,
-		"bounded":                  []string{},
+		"bounded":                  boundedNotes(r),
 	}
 	if r.Fatal != "" {
 		cov["fatal"] = r.Fatal
@@ -476,4 +476,22 @@ func (r *Run) WriteEvidence() error {
 	}
 	writeJSON(filepath.Join(dir, r.Prop+".json"), ev)
 	return nil
+}
+
+// boundedNotes lists the clauses that a contract marks as bounded instances of a claim that is not discharged
+// in general (a //@ note starting with BOUNDED): they are reported apart and never described as proofs.
+func boundedNotes(r *Run) []string {
+	out := []string{}
+	for _, fr := range r.Funcs {
+		if fr.Contract == nil {
+			continue
+		}
+		for _, n := range fr.Contract.Notes {
+			if strings.HasPrefix(n, "BOUNDED") {
+				out = append(out, shortPkgPath(fr.Pkg)+"."+fr.Func+": "+n)
+			}
+		}
+	}
+	sort.Strings(out)
+	return out
 }
